@@ -791,7 +791,7 @@ func runC09(res *Result, rng *RNG, tier string, outDir string) {
 	res.Rule = "sealed/unsealed twins from random histories x a panel of authorizer contents: the sealed token must verify under the same root key, give the same verdict for every authorizer of the panel, keep the same revocation ids and root key id, refuse Append and Seal with an error, and all of this again after serialize/unmarshal; sealed envelopes with the seal signature, the last block or the last announced key altered must be rejected. Non-trivial = a twin pair with at least one appended block or a mutated sealed envelope; distinct by token bytes."
 	nfam := 40
 	if tier == "thorough" {
-		nfam = 400
+		nfam = 250
 	}
 	orc := newOracle()
 	var vcases, vdescs, chainCases, chainDescs []string
